@@ -30,6 +30,14 @@ extern const uint8_t * g_ctr_in;
 extern uint8_t * g_ctr_out;
 extern size_t g_ctr_len;			/* ghost argument: length of the current public call */
 extern size_t g_k;				/* G1 ghost byte index into a block / a key schedule */
+/*
+ * Ghost point for the key schedule: g_ks_key is an arbitrary unexpanded key and g_ks_w what the harness computed
+ * for it with spec_aes_key_expansion() (FIPS-197 5.2) BEFORE the call; contracts say "if the key passed in is
+ * g_ks_key, the round keys are g_ks_w".  (Function calls inside ensures clauses are avoided: DFCC gives every
+ * function an extra write-set parameter and calls from contract clauses do not pass it.)
+ */
+extern uint8_t g_ks_key[32];
+extern uint8_t g_ks_w[240];
 /* "zero before free" monitor (AES part of C20), see harness/C20/aes_wipe.h */
 extern void * g_wipe_obj;			/* the tracked object that holds key material */
 extern size_t g_wipe_idx;			/* ghost byte index into it */
@@ -44,6 +52,8 @@ const uint8_t * g_ctr_in;
 uint8_t * g_ctr_out;
 size_t g_ctr_len;
 size_t g_k;
+uint8_t g_ks_key[32];
+uint8_t g_ks_w[240];
 void * g_wipe_obj;
 size_t g_wipe_idx;
 int g_wipe_frees;
